@@ -2,10 +2,11 @@
 # seed_eval.sh <seed-name> <check-id>...: apply the seeded change to /repo, run the checks, undo it.
 # Evidence files are saved and restored: committed evidence must come from the unchanged tree.
 name="$1"; shift
-cd /verif
+cd "$(dirname "$0")/.." || exit 2
+V=$PWD
 bak=$(mktemp -d)
 cp -r evidence "$bak/"
-git -C ${VERIF_REPO:-/repo} apply /verif/seeded/$name/patch.diff || { echo "$name: patch does not apply"; exit 2; }
+git -C ${VERIF_REPO:-/repo} apply $V/seeded/$name/patch.diff || { echo "$name: patch does not apply"; exit 2; }
 for c in "$@"; do
   out=$(./check $c 2>&1); rc=$?
   echo "$name vs $c: rc=$rc $(echo "$out" | grep -E 'VIOLATION|agree|KNOWN' | tail -1)"
